@@ -56,3 +56,12 @@ Definition v_rows2read (n : Z) (r : rowsel) (out : result (option (list Z))) : Z
 
 (* a sequence of calls made in one process: every call is judged on its own; the verdict bits are or-ed *)
 Definition v_seq (l : list Z) : Z := fold_right Z.lor 0 l.
+
+(* binary tables with very many rows: the full read is not shipped as a literal; it is the file's rows (the harness
+   checks in Python that the real full read has exactly the bytes of the file) *)
+Definition rows_of_data (f : rfile) : list (list cell) :=
+  match fread_rows (rowsize (rf_sizes f)) (Z.to_nat (rf_nrows f)) (rf_data f) with
+  | Ok rows => map (split_row (rf_sizes f)) rows
+  | Err _ => []
+  end.
+Definition v_req_bigbin (f : rfile) (q : request) (out : result value) : Z := v_req [] f q (rows_of_data f) out.
